@@ -178,6 +178,9 @@ type State struct {
 	nextTID    int
 	// race monitor state
 	Shadow map[shadowKey]*shadowCell
+	// encoding/json contract stub (C16)
+	JSONLastMarshal Value
+	JSONLastArg     Value
 }
 
 func (s *State) thread() *Thread { return s.Threads[s.Cur] }
